@@ -9,7 +9,8 @@ COQ_HEADER = ("From Coq Require Import List NArith ZArith.\nFrom RV Require Impo
 RUN_EXPR = "Run.C09.run"
 RULE = ("(1) generated stylesheets in the construct subset of the statement (type/class/id/attribute/pseudo selectors with "
         "combinators; declarations of identifiers, numbers with units, hex colours, quoted strings over ASCII, Latin-1, CJK, "
-        "astral, private-use and escape-looking text, url(), simple calls; @media, @supports, @font-face, @keyframes, comments): "
+        "astral, private-use and escape-looking text, unquoted tokens / url() / call arguments containing `#`, identifiers with hex "
+        "escapes around U+0080 / U+00A0 / U+00A1, url(), simple calls; @media, @supports, @font-face, @keyframes, comments): "
         "compile, read the expanded output back as plain CSS, compare up to blank lines (computed in Coq); (2) string probes: "
         "raw text between quotes read as plain CSS, model of reader+Display == rsass. distinct = distinct source text; "
         "non-trivial = the first compile succeeded with non-empty output")
@@ -53,7 +54,23 @@ def gen_number(rng):
     return v + rng.choice(UNITS)
 
 
+HASHY = ["url(sprites#home)", "url(sprite.svg#home)", "url(#gradient)", "a#b", "x#y", "foo(x#y, 2)", "f(a#b)", "icons#iefix",
+         "url(a#b#c)", "u-1#v_2"]
+# escapes in identifiers around the 0x80 / 0xa0 / 0xa1 boundary (hex escape, then a space ends it)
+ESCY = ["main\\a0 area", "fade\\a0 in", "\\a0 x", "x\\a0 ", "x\\9f y", "x\\80 y", "x\\7f y", "x\\20 y", "x\\ff y",
+        "x\\c0 y", "x\\aa y", "x\\b5 y", "x\\ba y", "a\\a0 b\\a0 c"]
+# Latin-1 symbols that are not letters: printed raw, not read back (known class)
+ESC_BAD = ["x\\a1 y", "\\a1 x", "x\\bf y", "x\\d7 y", "x\\a9 y"]
+
+
 def gen_atom(rng, allow_quote=True):
+    k = rng.random()
+    if k < 0.07:
+        return rng.choice(HASHY)
+    if k < 0.14:
+        return rng.choice(ESCY)
+    if k < 0.155:
+        return rng.choice(ESC_BAD)
     k = rng.random()
     if k < 0.25:
         return rng.choice(IDENT)
@@ -131,6 +148,10 @@ def gen_cases(ctx, tier):
     rng = ctx.rng
     cases = [{"kind": "sheet", "src": 'a{b:"x\\"y"}'}, {"kind": "sheet", "src": "a{b:'it\\'s'}"},
              {"kind": "sheet", "src": "a{b:\"é\" 1px #abc url(x.png) foo(1, 2)}"},
+             {"kind": "sheet", "src": ".icon{background:url(sprites#home) no-repeat;mask:url(sprite.svg#home);fill:url(#gradient);c:a#b foo(x#y, 2)}"},
+             {"kind": "sheet", "src": ".nbsp{grid-area:main\\a0 area;animation-name:fade\\a0 in, plain}@keyframes k{from{counter-reset:x\\a0 y 1}}"},
+             {"kind": "sheet", "src": "a{b:x\\9f y x\\80 y \\a0 z x\\ff y}"},
+             {"kind": "sheet", "src": "a{b:x\\a1 y}"},
              {"kind": "probe", "raw": "a\\\"b", "dq": True, "src": 'a{b:"a\\"b"}'}]
     n = 700 if tier == "quick" else 7000
     for _ in range(n):
@@ -174,12 +195,13 @@ def coq_term(c, io):
 
 
 K1 = "known_C09_escaped_quote_in_string"
+K2 = "known_C09_latin1_symbol_in_identifier"
 
 
 def judge(c, io, r):
-    corr, p1, k1 = r
+    corr, p1, k1, k2 = r
     return {"corr": None if corr == 2 else corr == 1,
-            "clauses": [] if c["kind"] == "probe" else [("reads-back-the-same", p1 == 1, K1 if k1 else None)],
+            "clauses": [] if c["kind"] == "probe" else [("reads-back-the-same", p1 == 1, K1 if k1 else (K2 if k2 else None))],
             "nontrivial": c["kind"] == "probe" or (io[0][0] == "ok" and bool(io[0][1][0])),
             "tags": [c["kind"], io[0][0]],
             "show": c["src"][:200], "detail": {"src": c["src"], "second": c.get("_o2")}, "key": c["src"]}
